@@ -2,7 +2,7 @@
 
    Transcribed from
      flows/routers/switch.go    SwitchRouter.Route, SwitchRouter.matchCase
-     flows/routers/base.go      baseRouter.RouteTimeout, baseRouter.routeToCategory, AllowTimeout
+     flows/routers/base.go      baseRouter.RouteTimeout, baseRouter.routeToCategory, baseRouter.routeVia, AllowTimeout
      flows/routers/random.go    RandomRouter.Route
      flows/results.go           Results.Save (changed-rule)
      flows/runs/run.go          run.SaveResult (value truncation), run.EvaluateTemplateValue (event logging)
@@ -232,23 +232,27 @@ Record route_out := { ro_res : route_res; ro_saved : option result; ro_events : 
 
 (* ---- baseRouter.routeToCategory ------------------------------------------------------------------ *)
 
+(* routeVia: leave through a given category, saving the result when the router has a result name *)
+Definition route_via (b : base_router) (prev : option result) (c : category)
+           (mtch operand : text) (extra : option text) (evs : list event) : route_out :=
+  match b_result_name b with
+  | [] => {| ro_res := RExit (c_exit c) operand; ro_saved := None; ro_events := evs |}
+  | name =>
+      let r := {| r_name := name; r_value := truncate max_result_chars mtch;
+                  r_category := c_name c;
+                  r_category_localized :=
+                    category_localized (lc_contact lc) (lc_allowed lc) (lc_base lc) (c_tr_name c);
+                  r_input := operand; r_extra := extra |} in
+      {| ro_res := RExit (c_exit c) operand; ro_saved := Some r;
+         ro_events := evs ++ (if result_changed prev r then [EvResultChanged r] else []) |}
+  end.
+
 Definition route_to_category (b : base_router) (prev : option result) (cat : uuid)
            (mtch operand : text) (extra : option text) (evs : list event) : route_out :=
   if N.eqb cat no_uuid then {| ro_res := RExit no_uuid operand; ro_saved := None; ro_events := evs |} else
   match find_category (b_categories b) cat with
   | None => {| ro_res := RError; ro_saved := None; ro_events := evs |}
-  | Some c =>
-      match b_result_name b with
-      | [] => {| ro_res := RExit (c_exit c) operand; ro_saved := None; ro_events := evs |}
-      | name =>
-          let r := {| r_name := name; r_value := truncate max_result_chars mtch;
-                      r_category := c_name c;
-                      r_category_localized :=
-                        category_localized (lc_contact lc) (lc_allowed lc) (lc_base lc) (c_tr_name c);
-                      r_input := operand; r_extra := extra |} in
-          {| ro_res := RExit (c_exit c) operand; ro_saved := Some r;
-             ro_events := evs ++ (if result_changed prev r then [EvResultChanged r] else []) |}
-      end
+  | Some c => route_via b prev c mtch operand extra evs
   end.
 
 (* ---- SwitchRouter.Route ------------------------------------------------------------------------- *)
@@ -288,7 +292,7 @@ Definition route_random (b : base_router) (d : draw) (prev : option result) : ro
   let idx := random_index d (N.of_nat (length (b_categories b))) in
   match nth_error (b_categories b) (N.to_nat idx) with
   | None => {| ro_res := RPanic; ro_saved := None; ro_events := [] |}      (* index out of range *)
-  | Some c => route_to_category b prev (c_uuid c) (N_to_text idx) (draw_text d) None []
+  | Some c => route_via b prev c (N_to_text idx) (draw_text d) None []      (* the category drawn, not looked up again *)
   end.
 
 Definition route (r : router) (d : draw) (prev : option result) : route_out :=
